@@ -172,6 +172,12 @@ func TestCheck(t *testing.T) {
 				rep.Violate(map[string]any{"kind": "goroutine-leak", "case_kind": cs.Kind, "proto": cs.Proto, "where": extra[0]}, map[string]any{"case": cs, "extra": extra},
 					"case %s: goroutines serving the connection did not end: %v", cs, extra)
 			}
+			// a client that sent something that is no TLS handshake and then stays connected, silent: it never completes a
+			// handshake, so it is cut by the proxy itself (handshake timeout 10 s at the latest) - not only once it leaves
+			if cs.Kind == "plain-http" && env.ClosesWhileClientStayed == 0 {
+				rep.Violate(map[string]any{"kind": "stalled-client-not-cut", "case_kind": cs.Kind, "proto": cs.Proto}, map[string]any{"case": cs},
+					"case %s: the client stayed connected and silent for 40 s of fake time without having completed a TLS handshake; the proxy had not closed the connection by then (it did once the client left)", cs)
+			}
 		})
 		if res.Panic != nil {
 			rep.HarnessError("case %s: panic %v\n%s", cs, res.Panic, res.Stack)
